@@ -28,6 +28,10 @@ RULE = (
     "and k under several RandomStates, cast of members, decoding of unit-cube points (random, corners, edge "
     "midpoints, bin borders k/n +- 1e-9), encoding + decoding of members, bounds, active sub-range, fixed last "
     "position, JSON round trip; then the space as a whole is checked against the per-domain results. "
+    "Multi-step histories on ONE live ranges object (single domain, whole space, ExtendedConfiguration's "
+    "hp_ranges_ext): value_for_last_pos is re-assigned 3..7 times (other member, same, earlier value, None) and "
+    "after every assignment, in random order, get_ndarray_bounds / vectors inside the bounds / random_config(s) / "
+    "to_ndarray / from_ndarray are re-checked against the current fixed value and against a freshly built object. "
     "Distinct = digest of the tuple of (constructor, degenerate condition, encoded size, outcome flags); "
     "non-trivial = at least one domain had members encoded and decoded back."
 )
@@ -48,6 +52,10 @@ ASSUMPTIONS = [
     "neighbours differ by far more than float64 round-off in the single encoded coordinate",
     "right type = isinstance(value, domain.value_type) (numpy.float64 is a float; numpy integer types are not int)",
     "vectors passed to from_ndarray have every coordinate in [0, 1] exactly",
+    "histories: value_for_last_pos is a public attribute that callers re-assign on a live object (the multi-fidelity "
+    "GP searcher does before every get_config); only members whose plain round trip held are assigned; what a live "
+    "object returns must equal what a freshly constructed object with the same arguments returns (exact equality of "
+    "bounds, encodings, decoded and sampled configurations under the same RandomState)",
     "cast(member) only has to be a member (the statement does not demand cast(member) == member); a cast that moves a "
     "member to another member is counted (note:cast_changes_member), not judged",
     "active sub-ranges are legal domains of the same constructor inside the full range (choice: any non-empty subset, "
